@@ -2,6 +2,7 @@
 // slots holding int / std::string / Tracked, against a {type tag, value} model under ASan+UBSan.
 // Engine seqmc.  Replay syntax:  any:<op>;<op>;...   (alphabet in C09_anymodel.h)
 #include "C09_anyexec.h"
+#include <map>
 #include "C09_optexplore.h"  // pw(), RADIX
 
 using namespace c09;
@@ -208,6 +209,49 @@ static void explore(int depth, int ls)
   });
 }
 
+// payloads whose type name is long (190 characters demangled): printing and the wrong-type message build that name
+typedef std::map<std::string, std::vector<std::string>> LongNamed;
+static const int NLONG = 4;
+static int longname_case(int k)
+{
+  std::string what, bad;
+  LongNamed v;
+  v["k"].push_back("x");
+  try {
+    switch (k) {
+    case 0: { what = "toString() of an Any holding map<string,vector<string>>"; Any a(v); std::string s = a.toString(); if (s.empty()) bad = "empty text"; break; }
+    case 1: { what = "get<int>() on an Any holding map<string,vector<string>>"; Any a(v); bool threw = false; try { (void)a.get<int>(); } catch (const std::runtime_error &) { threw = true; } if (!threw) bad = "did not throw std::runtime_error"; break; }
+    case 2: { what = "get<map<string,vector<string>>>() on an Any holding int"; Any a(5); bool threw = false; try { (void)a.get<LongNamed>(); } catch (const std::runtime_error &) { threw = true; } if (!threw) bad = "did not throw std::runtime_error"; break; }
+    default: { what = "get<T>(), copy, ==, toString() twice on map<string,vector<string>>"; Any a(v), b(a); if (!(a == b) || a != b) bad = "a copy compares unequal"; if (a.get<LongNamed>() != v) bad = "stored value differs"; (void)a.toString(); (void)b.toString(); break; }
+    }
+  } catch (const std::exception &e) {
+    bad = std::string("unexpected exception: ") + e.what();
+  }
+  vr::stat("states");
+  vr::stat("traces");
+  vr::stat("transitions");
+  vr::outcome("longname:" + std::to_string(k) + ":" + bad);
+  if (vr::replaying())
+    printf("%s: %s\n", what.c_str(), bad.empty() ? "ok" : bad.c_str());
+  if (!bad.empty()) {
+    report("Any|payload with a long type name|" + bad.substr(0, bad.find(':')), "longname:" + std::to_string(k), what + ": " + bad);
+    return 1;
+  }
+  return 0;
+}
+static void longname_all()
+{
+  vr::run_sharded(1, [&](int, long long resume_after) {
+    partial_enter(3000000, resume_after);
+    for (int k = 0; k < NLONG; k++) {
+      if (k <= resume_after)
+        continue;
+      vr::begin_case(k, "Any|payload with a long type name", "longname:" + std::to_string(k));
+      longname_case(k);
+    }
+  });
+}
+
 int main(int argc, char **argv)
 {
   vr::init(argc, argv);
@@ -217,6 +261,12 @@ int main(int argc, char **argv)
       depth = atoi(argv[++i]);
   if (vr::replaying()) {
     reexec_symbolized(argv);
+    if (vr::S().replay.compare(0, 9, "longname:") == 0) {
+      int rc = longname_case(atoi(vr::S().replay.c_str() + 9));
+      vr::flush();
+      fflush(stdout);
+      _exit(rc);
+    }
     std::string payload;
     std::vector<Op> h;
     if (!parse_hist(vr::S().replay, payload, h) || payload != "any") {
@@ -244,6 +294,7 @@ int main(int argc, char **argv)
     _exit(r.failed ? 1 : 0);
   }
   partial_setup();
+  longname_all();
   explore(depth, depth >= 5 ? 3 : 2);
   partial_merge();
   partial_cleanup();
